@@ -53,6 +53,7 @@ Print Assumptions C16_nesting_range.
    results, one native frame per iteration -- leaves C16_total and C16_depth true of the model and breaks this. *)
 Theorem C16_repetition_is_iteration :
   src_rep_sites = model_rep_sites /\
+  map (fun r => nonzero (fst (snd r))) model_counts_shared = [[]; []] /\
   src_recursive = ["ConstValue::parse"; "Ty::parse"; "Type::parse"]%string /\
   model_depth_users = ["ConstValue::parse"; "Ty::parse"]%string /\
   (forall lf df i, p_ty lf 0 i = PFuel FDepth /\ p_const_value lf 0 i = PFuel FDepth /\ p_type lf df = p_type_of lf (p_ty lf df)) /\
